@@ -69,7 +69,7 @@ func byteList(s string) string {
 func strConsts(f *hc.Facts, dir string) map[string]string {
 	out := map[string]string{}
 	seen := map[*ast.File]bool{}
-	for _, af := range f.Files(dir) {
+	for _, af := range f.C20Files(dir) {
 		if seen[af] {
 			continue
 		}
@@ -160,7 +160,7 @@ func facts(f *hc.Facts) {
 	}
 	var list []string
 	okList := false
-	for _, af := range f.Files("tgerr") {
+	for _, af := range f.C20Files("tgerr") {
 		for _, d := range af.Decls {
 			gd, ok := d.(*ast.GenDecl)
 			if !ok || gd.Tok != token.VAR {
@@ -410,7 +410,7 @@ func genNumber(r *hc.RNG) (digits string, val uint64) {
 
 func run(c *hc.Ctx) error {
 	r := c.Rng
-	bt := c.NewBatcher()
+	bt := c.NewC20Batcher()
 	add := bt.Add
 	parsed := func(e *tgerr.Error) string { return hc.Hex([]byte(e.Type)) + " " + strconv.Itoa(e.Argument) }
 
